@@ -96,6 +96,18 @@ Proof.
   destruct Hs as [-> | ->]; [reflexivity | rewrite N.eqb_refl; apply orb_true_r].
 Qed.
 
+(* X/28 format 1 and M/29 packets of the selected magazine with designation code 0 or 4 and an all-zero first triplet
+   (the default character set designation) only confirm the default *)
+Theorem default_designation_neutral : forall fl mag0 pkt dc rest, 1 <= mag0 <= 8 -> pkt = 28 \/ pkt = 29 -> dc = 0 \/ dc = 4 ->
+  neutral_unit mag0 (3, enc_packet fl mag0 pkt (ham84_enc dc :: 0 :: 0 :: 0 :: rest)) = true.
+Proof.
+  intros fl mag0 pkt dc rest Hm Hp Hd. unfold neutral_unit.
+  rewrite (unit_addr_enc fl mag0 pkt _ (mag_addr_ok mag0 pkt Hm ltac:(lia))). rewrite N.eqb_refl.
+  cbn [length nth tl Nat.ltb Nat.leb negb andb].
+  assert (Hdec : ham84_dec (ham84_enc dc) = Some dc) by (apply ham84_dec_enc_spec; lia). rewrite Hdec.
+  destruct Hp as [-> | ->]; destruct Hd as [-> | ->]; vm_compute; reflexivity.
+Qed.
+
 (* a page number with a hexadecimal digit is never one of the decimal pages 0..99 a reader can select *)
 Theorem hex_page_is_other : forall tens units pn0, tens < 16 -> units < 16 -> (9 < tens \/ 9 < units) ->
   (0 <= pn0 <= 99)%Z -> page_code tens units <> pn0.
@@ -133,6 +145,8 @@ Definition ex_mux : mux :=
                   (1000%Z, (true, ex_row_unit 20 ex_row1));
                   (1040%Z, (false, row_unit 231 1 20 (row_cells ex_row2) []));
                   (1040%Z, (false, (3, enc_packet 231 8 26 [ham84_enc 0; 1; 2; 3])));
+                  (1040%Z, (false, (3, enc_packet 231 8 28 [ham84_enc 0; 0; 0; 0; 77])));
+                  (1040%Z, (false, (3, enc_packet 231 8 29 [ham84_enc 4; 64; 192; 5])));
                   (1040%Z, (true, ex_row_unit 3 ex_row2))]
                  (Some ((1100%Z, hdr_unit 231 8 (ex_hdr 8 9 0 false)), [(1100%Z, ex_row_unit 5 ex_row1)]));
           mkImux (hdr_unit 231 8 (ex_hdr 8 8 7 false)) [] None;
